@@ -595,6 +595,26 @@ func checkC09(e *Env, r *Report) {
 		}
 		recs = append(recs, roundTrip("block:"+strings.Join(ids, " + "), rs, true))
 	}
+	// trailing comments that hold backslashes (a Windows path, a line that ends in one, a doubled one) in front of
+	// another rule: inside a comment a backslash escapes nothing, the end of the line ends the comment
+	nCmt := 0
+	for _, c := range []string{` see C:\tmp\`, ` ends in a backslash \`, ` two \\`, ` \" quote after a backslash`, ` mid\dle`} {
+		mk := []func() aa.Rule{
+			func() aa.Rule { return &aa.File{Path: "/usr/bin/foo", Access: []string{"r"}} },
+			func() aa.Rule { return &aa.Capability{Names: []string{"chown"}} },
+			func() aa.Rule { return &aa.Network{} },
+		}
+		for i := range mk {
+			first := mk[i]()
+			setField(reflect.ValueOf(first).Elem(), "Comment", c)
+			for _, second := range []aa.Rule{&aa.File{Path: "/usr/bin/zbar", Access: []string{"w"}}, &aa.Signal{Access: []string{"send"}, Set: []string{"term"}, Peer: "peerprof"}} {
+				recs = append(recs, roundTrip(fmt.Sprintf("block:cmtbackslash:%d:%q", i, c), aa.Rules{first, second}, false))
+				recs = append(recs, roundTrip(fmt.Sprintf("block:cmtbackslash:fmt:%d:%q", i, c), aa.Rules{mk[i](), first, second}, true))
+				nCmt += 2
+			}
+		}
+	}
+	r.Coverage["comment_backslash_blocks"] = nCmt
 	// whole files: preamble + header
 	nFiles := 300
 	if e.Tier == "thorough" {
